@@ -430,3 +430,97 @@ func RDeadCopy(c *core.Ctx) {
 		c.Anchor("copy() into a field-held slice")
 	}
 }
+
+// ---------------------------------------------------------------------------
+// R-MAKEARG: a caller's count is a limit, not an allocation size.
+// make([]T, 0, n) with n taken straight from an exported entry point panics
+// ("makeslice: cap out of range") for large n although n only bounds how many
+// results are wanted.  The size has to be clamped first.
+// ---------------------------------------------------------------------------
+
+func RMakeArg(c *core.Ctx) {
+	c.Rule("R-MAKEARG", "no make() in packages regexp2 / compat takes its length or capacity directly (or times a constant) from an integer parameter that an exported function or method passes on from its own parameter list, unless a dominating comparison bounds that parameter from above", 1)
+	p := c.P
+	n := 0
+	exportedParam := func(fn *ssa.Function, prm *ssa.Parameter) bool {
+		idx := -1
+		for i, q := range fn.Params {
+			if q == prm {
+				idx = i
+			}
+		}
+		if idx < 0 {
+			return false
+		}
+		if fn.Object() != nil && fn.Object().Exported() {
+			return true
+		}
+		// one level: an exported caller passes its own parameter
+		for _, g := range p.ModuleFuncs() {
+			if g.Object() == nil || !g.Object().Exported() {
+				continue
+			}
+			for _, b := range g.Blocks {
+				for _, ins := range b.Instrs {
+					call, ok := ins.(*ssa.Call)
+					if !ok || call.Call.StaticCallee() != fn || idx >= len(call.Call.Args) {
+						continue
+					}
+					if _, ok := call.Call.Args[idx].(*ssa.Parameter); ok {
+						return true
+					}
+				}
+			}
+		}
+		return false
+	}
+	for _, fn := range p.ModuleFuncs() {
+		pkg := core.FnPkgPath(fn)
+		if pkg != core.PkgRoot && pkg != core.PkgCompat {
+			continue
+		}
+		name := core.SSAName(fn)
+		cnt := 0
+		for _, b := range fn.Blocks {
+			for _, ins := range b.Instrs {
+				ms, ok := ins.(*ssa.MakeSlice)
+				if !ok {
+					continue
+				}
+				for _, sz := range []ssa.Value{ms.Len, ms.Cap} {
+					var prm *ssa.Parameter
+					switch x := sz.(type) {
+					case *ssa.Parameter:
+						prm = x
+					case *ssa.BinOp:
+						if q, ok := x.X.(*ssa.Parameter); ok && x.Op == token.MUL {
+							if _, isC := core.IntConst(x.Y); isC {
+								prm = q
+							}
+						}
+					}
+					if prm == nil || !exportedParam(fn, prm) {
+						continue
+					}
+					cnt++
+					n++
+					c.Visit(name)
+					bounded := false
+					for _, f := range core.FactsAtBlock(b) {
+						x, y, op, ok := core.CmpNorm(f)
+						if ok && x == ssa.Value(prm) && (op == token.LSS || op == token.LEQ) {
+							_ = y
+							bounded = true
+						}
+					}
+					c.Check(bounded, fmt.Sprintf("%s / make size #%d taken from a caller's count is bounded", name, cnt), ms.Pos(),
+						"the size is the parameter %s, which an exported entry point passes on unchecked: a large count (1<<62) panics with `makeslice: cap out of range` although it only limits the number of results", prm.Name())
+				}
+			}
+		}
+	}
+	if n == 0 {
+		c.Note("R-MAKEARG: no make() sized by an entry point's parameter")
+		c.OK("regexp2 / no allocation is sized by a caller's count", token.NoPos, "no such make()")
+	}
+}
